@@ -27,7 +27,7 @@ def build_case(u, tier="quick"):
     if tier == "quick":
         n = len(pattern) if k < 10 else (u.range(100, 400) if k < 15 else u.range(1000, 2000))
     else:
-        n = len(pattern) if k < 6 else (u.range(200, 2000) if k < 14 else u.range(20000, 100000))
+        n = len(pattern) if k < 6 else (u.range(200, 2000) if k < 14 else u.range(10000, 100000))
     return {"cfg": cfg, "pattern": pattern, "n": n}
 
 
@@ -110,7 +110,7 @@ def run(rep, tier):
         rep.count("sends_checked", info["sends"])
         rep.count("leak_scans", info["leak_checked"])
 
-    n = 40 if tier == "quick" else 200
+    n = 40 if tier == "quick" else 120
     core.run_hypothesis(rep, gen.case_strategy(lambda u: build_case(u, tier), 4096), body, n,
                         describe=lambda c: dict(v3hist.describe(c["cfg"], c["pattern"]), n=c["n"]))
 
